@@ -25,9 +25,16 @@ func init() {
 
 func mk(tag string, i, k int) string { return fmt.Sprintf("{#%s%d.%d#}", tag, i, k) }
 
+// zeroIDs: tokens are built without an id (what the formatter and hand-written trees do)
+var zeroIDs bool
+
 func markerTok(i, k int) *token.Token {
+	id := token.T_STRING
+	if zeroIDs {
+		id = 0
+	}
 	return &token.Token{
-		ID:    token.T_STRING,
+		ID:    id,
 		Value: []byte(mk("T", i, k)),
 		FreeFloating: []*token.Token{
 			{ID: token.T_WHITESPACE, Value: []byte(mk("F", i, k))},
@@ -110,6 +117,8 @@ func opSynth(t Task) Result {
 	for _, x := range tArr(t, "slots") {
 		slots = append(slots, int(x.(float64)))
 	}
+	zeroIDs = tBool(t, "zero_ids")
+	defer func() { zeroIDs = false }()
 	sharedChild = nil
 	if tBool(t, "shared") {
 		sharedChild = &phpast.Identifier{Value: []byte(mk("N", 0, 0))}
